@@ -272,6 +272,19 @@ async def case_lines(spec: dict[str, Any], ctx: Ctx) -> None:
                     ctx.report('setup-failed', 'cannot reach state ' + state)
                     return
             body = gen.hostile_line(rng, state)
+            if state != 'nonauth' and k == spec['nlines'] // 2 and \
+                    spec['seed'] % 5 == 0:
+                # a "pumped" pair: a long name made of one unit, then a
+                # pattern of many wildcards that almost matches it
+                unit = rng.choice([b'a', b'ab', b'x/', b'a.'])
+                name = unit * rng.choice([30, 60, 120])
+                stars = rng.choice([6, 10, 16, 30])
+                wc = rng.choice([b'*', b'%', b'*%'])
+                await send_line(ctx, conn, b'p%d CREATE "%s"\r\n' % (k, name),
+                                'CREATE of a pumped name')
+                body = rng.choice([b'LIST', b'LSUB']) + b' "" "' + \
+                    (unit + wc) * stars + b'!"'
+                ctx.count('pumped_patterns')
             r = rng.random()
             if r < 0.92:
                 tag = b'f%d' % k
